@@ -635,6 +635,15 @@ func (m *SparseInt64Matrix) Import(filename string) error {
       return fmt.Errorf("invalid sparse matrix format: index `(%d,%d)' out of range", rowIndices[i], colIndices[i])
     }
   }
+  // every entry may be given only once
+  seen := make(map[[2]int]struct{}, len(rowIndices))
+  for i := 0; i < len(rowIndices); i++ {
+    k := [2]int{rowIndices[i], colIndices[i]}
+    if _, ok := seen[k]; ok {
+      return fmt.Errorf("invalid sparse matrix format: index `(%d,%d)' appeared multiple times", rowIndices[i], colIndices[i])
+    }
+    seen[k] = struct{}{}
+  }
   *m = *NewSparseInt64Matrix(rowIndices, colIndices, values, rows, cols)
   return nil
 }
